@@ -22,6 +22,23 @@ static char *g_guard_base = nullptr; static size_t g_guard_len = 0; // [data pag
 
 static Case mkcase(const Bytes &a) { Case c; c.b("input", a); return c; }
 
+// eav_t on the stack (alloca'd blocks of exactly sizeof(eav_t), filled with garbage before eav_init):
+// the whole life cycle init / setup / is_email x2 / errstr / free per mode and tld_check; returns the digest
+// of the outcomes, which must equal the heap objects' digest.
+#include <alloca.h>
+__attribute__((noinline)) static uint64_t stack_round(const vapi *A, const char *p, size_t n) {
+    uint64_t h = 0; v_outcome o; size_t sz = A->obj_size();
+    for (int m = 0; m < 4; m++) for (int t = 0; t < 2; t++) {
+        void *e = alloca(sz); memset(e, 0x3C + m * 2 + t, sz);
+        A->obj_init(e); A->obj_set_mode(e, m); A->obj_set_tld(e, t);
+        if (A->obj_setup(e) != 0) abort();
+        A->obj_is_email(e, p, n, &o);
+        A->obj_is_email(e, p, n, &o); h = dig(h, o);
+        A->obj_free(e);
+    }
+    return h;
+}
+
 static std::optional<Failure> check_one(Run &R, const Bytes &a, bool guard) {
     g_case = mkcase(a).str();
     uint64_t d[2][3];
@@ -38,6 +55,13 @@ static std::optional<Failure> check_one(Run &R, const Bytes &a, bool guard) {
         } else { ExactBuf b(a); d[v][f] = exercise_all(VAR[v], &OB[v][f], b.p, a.size()); }
         R.eval(40);
         if (guard && f == 0) break;
+    }
+    if (!guard) { // stack-allocated eav_t must behave exactly like the heap ones
+        ExactBuf b(a);
+        for (int v = 0; v < 2; v++) {
+            uint64_t hs = stack_round(VAR[v], b.p, a.size()), hh = exercise_all(VAR[v], &OB[v][0], b.p, a.size(), 1); R.eval(24);
+            if (hs != hh) return Failure{"stack-object-differs", g_case, std::string("outcomes for '") + show(a.substr(0, 200)) + "' differ between an eav_t on the stack (garbage before eav_init) and one on the heap (" + (v ? "EAV_EXTRA build" : "default build") + ")"};
+        }
     }
     bool deep = a.size() >= 1024; size_t at = a.rfind('@'); if (at != Bytes::npos && at > 0 && at + 1 < a.size()) deep = true;
     if (deep) R.nontrivial(hashs(a));
